@@ -55,6 +55,19 @@ def normalise(header_list):
     return sorted(out)
 
 
+def edited(headers, plan, n_edit):
+    """What n_edit editing layers make of the bare application's (normalised) headers: only the one header changes."""
+    exp = list(headers)
+    if n_edit and plan.get("edit_append"):
+        k, v = plan["edit_append"][0].lower(), plan["edit_append"][1]
+        old = [hv for hk, hv in exp if hk == k]
+        exp = [(hk, hv) for hk, hv in exp if hk != k] + [(k, ", ".join(old + [v] * n_edit))]
+    elif n_edit:
+        k, v = plan["edit"]
+        exp = [(hk, hv) for hk, hv in exp if hk != k] + [(k, v)]
+    return sorted(exp)
+
+
 def unboundary(res):
     """The multipart/byteranges boundary is a fresh random token per response (and, with two requests in flight, whichever
     request draws first gets the first one): compare responses with the token replaced by a fixed word."""
@@ -140,6 +153,9 @@ class C20(Prop):
             stack = [s if s != "dec" else "mw" for s in stack]
         plan["stack"] = stack
         plan["edit"] = t.choice([("x-edited", "yes"), ("x-a", "overridden"), ("cache-control", "no-store")])
+        # how the editing layer edits: assignment, or the CORS-layer idiom headers.append("Vary", "Origin") - a token added to
+        # what the inner response carries under that name, the name in the usual capitalised spelling
+        plan["edit_append"] = t.choice([None, None, ("X-A", "tok"), ("Cache-Control", "no-transform"), ("Vary", "Origin"), ("x-edited", "yes")])
         # a history: the same (bare / wrapped) application objects serve a second, identical request; on ASGI the two may overlap
         plan["repeat"] = t.weighted([(4, None), (1, "sequential"), (1, "concurrent")])
         # the request carries a body nobody reads (on ASGI it arrives in 1..3 messages, possibly while the response is under way)
@@ -165,6 +181,13 @@ class C20(Prop):
             import baize.asgi as M
         stack = plan["stack"] if wrapped else []
         edit_k, edit_v = plan["edit"]
+        edit_append = plan.get("edit_append")
+
+        def edit(resp):
+            if edit_append:
+                resp.headers.append(*edit_append)
+            else:
+                resp.headers[edit_k] = edit_v
         mws = [s for s in stack if s in ("mw", "edit")]
         decs = [s for s in stack if s == "dec"]
 
@@ -287,7 +310,7 @@ class C20(Prop):
                     @M.middleware
                     def m(request, next_call):
                         resp = next_call(request)
-                        resp.headers[edit_k] = edit_v
+                        edit(resp)
                         return resp
             else:
                 if s == "mw":
@@ -298,7 +321,7 @@ class C20(Prop):
                     @M.middleware
                     async def m(request, next_call):
                         resp = await next_call(request)
-                        resp.headers[edit_k] = edit_v
+                        edit(resp)
                         return resp
             app = m(app)
         return app
@@ -461,12 +484,8 @@ class C20(Prop):
             return
         if bare["status"] != wrapped["status"]:
             ctx.violate("C20|%s|status-differs" % tag, "bare %s wrapped %s %s" % (bare["status"], wrapped["status"], where))
-        exp_headers = list(bare["headers"])
         n_edit = sum(1 for s in plan["stack"] if s == "edit")
-        if n_edit:
-            k, v = plan["edit"]
-            exp_headers = [(hk, hv) for hk, hv in exp_headers if hk != k] + [(k, v)]
-        exp_headers.sort()
+        exp_headers = edited(bare["headers"], plan, n_edit)
         if wrapped["headers"] != exp_headers:
             missing = [h for h in exp_headers if h not in wrapped["headers"]]
             extra = [h for h in wrapped["headers"] if h not in exp_headers]
@@ -487,10 +506,7 @@ class C20(Prop):
             if type(b2["exc"]) is not type(w2["exc"]):
                 ctx.violate("C20|%s|2nd-request|escaping-exception-differs|bare-%s|wrapped-%s" % (tag, type(b2["exc"]).__name__, type(w2["exc"]).__name__), where)
             elif b2["exc"] is None:
-                exp2 = list(b2["headers"])
-                if n_edit:
-                    k, v = plan["edit"]
-                    exp2 = sorted([(hk, hv) for hk, hv in exp2 if hk != k] + [(k, v)])
+                exp2 = edited(b2["headers"], plan, n_edit)
                 if b2["status"] != w2["status"] or w2["headers"] != exp2 or b2["body"] != w2["body"]:
                     ctx.violate("C20|%s|2nd-request|%s-differs" % (tag, "status" if b2["status"] != w2["status"] else ("headers" if w2["headers"] != exp2 else "body")),
                                 "%s history: bare 2nd (%s, %d bytes, %r) wrapped 2nd (%s, %d bytes, %r) %s" % (plan["repeat"], b2["status"], len(b2["body"]), b2["headers"][:6], w2["status"], len(w2["body"]), w2["headers"][:6], where))
